@@ -65,6 +65,10 @@ func registerEnvIntrinsics(I map[string]Intrinsic) {
 		*p = st
 		return Tuple{p, nilErr()}
 	}
+	// os.Stdin/Stdout/Stderr exist as (nil) *os.File values: code may store and compare them; writing through them is
+	// not modelled (the harnesses install their own writers)
+	I["os.NewFile"] = func(g *G, a []Value, pos token.Pos) Value { return (*Value)(nil) }
+	I["os.runtime_args"] = func(g *G, a []Value, pos token.Pos) Value { return []Value{"verif"} } // os.Args = ["verif"]
 	I["os.Geteuid"] = func(g *G, a []Value, pos token.Pos) Value { return mkInt(1000) }
 	I["os.Getegid"] = func(g *G, a []Value, pos token.Pos) Value { return mkInt(1000) }
 	I["os.Getuid"] = func(g *G, a []Value, pos token.Pos) Value { return mkInt(1000) }
